@@ -67,6 +67,29 @@ def gen_long_graph(rnd):
     return [models[m] for m in names]
 
 
+def gen_keyed_graph(rnd):
+    """three to five models with composite primary keys whose relationships use foreign keys that are PARTS of the declaring model's own key, the whole key, or the
+    key in another order (order lines keyed by (order id, line number) pointing at orders through order id): the cardinality of a hop is what was declared, whatever
+    the keys look like"""
+    n = rnd.randint(3, 5)
+    names = ["k%d" % i for i in range(n)]
+    models = []
+    for m in names:
+        pk = rnd.choice(["l:k1,k2", "l:k1,k2", "l:k1,k2,k3", "s:k1"])
+        cols = pk[2:].split(",")
+        rels = []
+        for _ in range(rnd.choice([1, 1, 2])):
+            tgt = rnd.choice([x for x in names if x != m])
+            ty = rnd.choice(["many_to_one", "many_to_one", "one_to_many", "one_to_one"])
+            fk = rnd.choice(["s:" + cols[0], "s:" + cols[-1], "l:" + ",".join(cols), "l:" + ",".join(reversed(cols)), "s:" + tgt + "_fk"])
+            rpk = rnd.choice(["-", "-", "s:k1", "l:k1,k2"])
+            if fk.startswith("l:") and rpk.startswith("s:"):
+                rpk = "-"
+            rels.append(dict(name=tgt, type=ty, fk=fk, pk=rpk, through="-", tfk="-", rfk="-"))
+        models.append(dict(name=m, pk=pk, rels=rels))
+    return models
+
+
 OPTS7 = [None, ("many_to_one", 0), ("many_to_one", 1), ("one_to_many", 0), ("one_to_many", 1), ("one_to_one", 0), ("one_to_one", 1)]
 PAIRS4 = list(itertools.combinations(range(4), 2))
 
@@ -410,6 +433,14 @@ def run(c):
         names = [m["name"] for m in models]
         pairs = [(a, b) for a in names for b in names]
         vsets = [[names[0], names[-1]], rnd_long.sample(names, k=3)]
+        cases.append((models, pairs, vsets))
+        lines += graph_lines(models) + ["Q %s %s" % p for p in pairs] + ["A %s" % m["name"] for m in models] + ["V %s" % ",".join(v) for v in vsets]
+    rnd_key = _random.Random(c.seed * 9 + 77)          # a stream of its own
+    for _ in range(60 if c.tier == "quick" else 600):
+        models = gen_keyed_graph(rnd_key)
+        names = [m["name"] for m in models]
+        pairs = [(a, b) for a in names for b in names]
+        vsets = [rnd_key.sample(names, k=2)]
         cases.append((models, pairs, vsets))
         lines += graph_lines(models) + ["Q %s %s" % p for p in pairs] + ["A %s" % m["name"] for m in models] + ["V %s" % ",".join(v) for v in vsets]
     got = lib.run_driver(exe, lines) if exe else None
